@@ -10,6 +10,7 @@ void reg(string t, object o) { if (!registry) registry = ([ ]); registry[t] = o;
 string create_script;
 void set_create_script(string s) { create_script = s; }
 string take_create_script() { string s; s = create_script; create_script = 0; return s; }
+mapping query_registry() { return registry; }
 object lookup(string t) { if (!registry) return 0; return registry[t]; }
 
 void create() { rec("MASTER create"); load_policy(); }
@@ -25,10 +26,47 @@ object connect(int port) {
   return ob;
 }
 
-string creator_file(string file) { return "Root"; }
+// creator_file / valid_seteuid answers: mappings set from /cfpolicy, /vspolicy ("key answer" per line) and at run time
+// through set_cf/set_vs.  Default answers are Root and 1.  Answers: a uid name, 0, A (array), E (raise an error), S (string)
+mapping cfmap, vsmap; int uid_log;
+void set_cf(string file, string ans) { if (!cfmap) cfmap = ([ ]); cfmap[file] = ans; uid_log = 1; }
+void set_vs(string uid, string ans) { if (!vsmap) vsmap = ([ ]); vsmap[uid] = ans; uid_log = 1; }
+mixed creator_file(string file) {
+  string a, base; int n;
+  base = file;
+  if (sscanf(file, "%s#%d", base, n) != 2) base = file;
+  a = (cfmap && cfmap[base]) ? cfmap[base] : "Root";
+  if (uid_log) rec("CF " + file + " ans=" + a);
+  if (a == "0") return 0;
+  if (a == "A") return ({ "junk" });
+  if (a == "E") error("creator_file bomb\n");
+  return a;
+}
 string get_root_uid() { return "Root"; }
 string get_bb_uid() { return "Backbone"; }
-int valid_seteuid(object ob, string newuid) { return 1; }
+#ifndef NO_VALID_SETEUID
+mixed valid_seteuid(object ob, string newuid) {
+  string a;
+  a = (vsmap && vsmap[newuid]) ? vsmap[newuid] : "1";
+  if (uid_log) rec("VS " + file_name(ob) + " " + newuid + " ans=" + a);
+  if (a == "0") return 0;
+  if (a == "A") return ({ });
+  if (a == "E") error("valid_seteuid bomb\n");
+  if (a == "S") return "yes";
+  return 1;
+}
+#endif
+// the master itself creating objects, optionally with its own euid dropped to 0 first (the master is exempt from the euid rule)
+void m_clone(string file, string t, int drop) {
+  mixed e, r; object q;
+  if (drop) { seteuid(0); rec("USETEUID M 0 ret=1 err=0"); }
+  rec("UNEW uclone M " + file + " " + t);
+  e = catch(q = clone_object(file));
+  if (q) q->set_tag(t);
+  rec("UNEWDONE " + t + " ok=" + (q ? 1 : 0) + " err=" + (e ? replace_string(e, "\n", "") : "0"));
+  e = catch(r = seteuid("Root"));
+  rec("USETEUID M Root ret=" + r + " err=" + (e ? 1 : 0));
+}
 // policy: answers for successive valid_read/valid_write calls, read from /policy (written by the plan)
 string *policy; int policy_pos;
 string hexs(string s) { string r; int i; r = ""; for (i = 0; i < strlen(s); i++) r += sprintf("%02x", s[i] & 255); return r; }
@@ -47,7 +85,9 @@ mixed answer(string kind, string file, object user, string func) {
 }
 mixed valid_read(string file, object user, string func) { return answer("VR", file, user, func); }
 mixed valid_write(string file, object user, string func) { return answer("VW", file, user, func); }
-void load_policy() { string t; t = read_file("/policy"); if (t) policy = explode(t, "\n"); policy_pos = 0; }
+void load_policy() { string t; t = read_file("/policy"); if (t) policy = explode(t, "\n"); policy_pos = 0;
+  t = read_file("/cfpolicy"); if (t) { string l, k, v; foreach (l in explode(t, "\n")) if (sscanf(l, "%s %s", k, v) == 2) set_cf(k, v); }
+  t = read_file("/vspolicy"); if (t) { string l, k, v; foreach (l in explode(t, "\n")) if (sscanf(l, "%s %s", k, v) == 2) set_vs(k, v); } }
 int valid_object(object ob) { return 1; }
 string *epilog(int eflag) { return ({ }); }
 void preload(string file) { }
